@@ -361,6 +361,11 @@ func ruleC10_3(c *Ctx) {
 			if mc, ok := in.(*ssa.MakeClosure); ok {
 				scan(mc.Fn.(*ssa.Function))
 			}
+			for _, op := range in.Operands(nil) {
+				if af, ok := (*op).(*ssa.Function); ok && af.Parent() != nil {
+					scan(af) // a closure without captured variables is a plain function value
+				}
+			}
 			if ci, ok := in.(ssa.CallInstruction); ok {
 				for _, cal := range c.P.RepoCallees(ci) {
 					scan(cal)
